@@ -1,19 +1,25 @@
 """Model-light tiling checker for warn-mode event streams (C08.b).
 
-Walks the events with a *set* of candidate input positions P (initially {0}):
- * a primitive event must re-encode to input[p:p+w] for some p in P; P := the surviving p+w;
- * a maximal group of consecutive warnings wrapping exceeded / subceeded reports for regions R1..Rk
-   (start and declared end computed from the event stream itself) replaces P by
-   {max(p, end(Ri)) : p in P, i in 1..k} - decoding must resume exactly at an end one of the
-   just-reported size fields declares, never before the current position;
+Walks the events with a small *set of candidate decoder states* (initially one, at input position 0).  A state is
+(pos, base, message start, position after each size field seen so far):
+ * a primitive event must re-encode to input[pos:pos+w]; the state advances (states that do not match die);
+ * a maximal group of consecutive warnings wrapping exceeded / subceeded reports for regions R1..Rk (start and
+   declared end computed from the state itself: the position after the event whose path is the reported
+   constraint path, or the message start for commandSize / responseSize, plus the reported limit) forks the state:
+   decoding must resume exactly at an end one of the just-reported size fields declares.  An end that lies beyond the
+   end of another region of the same group that encloses it does not count (the enclosing region was reported as
+   violated too).  A region may be reported with its declared end already *behind* the current position only if that
+   position was reached by consuming fields (e.g. a commandSize smaller than its own header), not if an earlier
+   skip carried the decoder across that end;
  * anticipation and value warnings move nothing;
- * a superfluous warning must be last and list exactly input[p:] for some p in P; a depleted warning
-   must be last; otherwise len(input) must be in P at the end.
-Candidates only ever make the check weaker, never unsound.
+ * a superfluous warning must be last and list exactly input[pos:]; a depleted warning must be last; otherwise some
+   state must end at len(input).
+Several candidate states only ever make the check weaker, never unsound.
 """
 from .layout import layout
 
 MSG_SIZES = ("commandSize", "responseSize")
+MAX_STATES = 16
 
 
 def width_and_bytes(item, event=None):
@@ -31,84 +37,132 @@ def width_and_bytes(item, event=None):
     return None, None
 
 
+class State:
+    __slots__ = ("pos", "base", "mstart", "after")
+
+    def __init__(self, pos=0, base=0, mstart=0, after=None):
+        self.pos = pos
+        self.base = base          # position reached by consuming fields (skips do not move it)
+        self.mstart = mstart      # start of the current message
+        self.after = after if after is not None else {}
+
+    def fork(self, pos):
+        return State(pos, self.base, self.mstart, self.after)
+
+    def key(self):
+        return (self.pos, self.base, self.mstart)
+
+
+def admissible_ends(spans):
+    out = set()
+    for s, e in spans:
+        if any((s2 <= s <= e2) and e > e2 and (s2, e2) != (s, e) for s2, e2 in spans):
+            continue
+        out.add(e)
+    return out or {e for _s, e in spans}
+
+
 def check(items, data, events=None, escaped=None):
     """items: comparable items of a warn-mode decode; escaped: kind of the escaping exception or None.
     -> (ok, message, stats)"""
-    P = {0}
+    states = [State()]
     stats = {"skips": 0, "candidates_max": 1}
-    msg_start = {0}
-    after = {}          # path -> candidate positions right after the most recent primitive with that path
     n = len(items)
     i = 0
+    why = ""
     while i < n:
         it = items[i]
         if it[0] == "S":
             if it[1] == "" and it[2] in ("Command", "Response"):
-                msg_start = set(P)
-                after = {}
+                for st in states:
+                    st.mstart = st.pos
+                    st.after = {}
             i += 1
             continue
         if it[0] == "P":
             w, enc = width_and_bytes(it, events[i] if events else None)
             if w is None:
                 return False, "event %d %r: width unknown" % (i, it), stats
-            nxt = {p + w for p in P if data[p:p + w] == enc and p + w <= len(data)}
+            nxt = []
+            for st in states:
+                if data[st.pos:st.pos + w] == enc and st.pos + w <= len(data):
+                    st.pos += w
+                    st.base = st.pos
+                    st.after = dict(st.after)
+                    st.after[it[1]] = st.pos
+                    if it[1] == "":
+                        st.mstart = st.pos
+                    nxt.append(st)
             if not nxt:
-                return False, "event %d %s=%s (%s) is not the next input bytes at any candidate position %s (input there: %s)" % (
-                    i, it[1], enc.hex() if enc is not None else it[3], it[2], sorted(P)[:6],
-                    [data[p:p + w].hex() for p in sorted(P)[:3]]), stats
-            P = nxt
-            after[it[1]] = set(P)
-            if it[1] == "":
-                msg_start = set(P)
+                ps = sorted(st.pos for st in states)
+                return False, "event %d %s=%s (%s) is not the next input bytes at any candidate position %s (input there: %s)%s" % (
+                    i, it[1], enc.hex() if enc is not None else it[3], it[2], ps[:6],
+                    [data[p:p + w].hex() for p in ps[:3]], ("; " + why) if why else ""), stats
+            states = nxt
             i += 1
             continue
         if it[0] == "W":
-            # maximal group of consecutive warnings
             j = i
-            ends = set()
-            moved = False
+            group = []
+            last = None
             while j < n and items[j][0] == "W":
                 wi = items[j]
-                cls = wi[1]
-                if cls in ("SizeConstraintExceededError", "SizeConstraintSubceededError"):
-                    cpath, limit = wi[2], int(wi[3])
-                    last = cpath.rsplit(".", 1)[-1]
-                    if last in MSG_SIZES and cpath.count(".") == 1:
-                        starts = msg_start
-                    else:
-                        starts = after.get(cpath)
-                    if not starts:
-                        return False, "warning %d reports region %s whose size field was never emitted" % (j, cpath), stats
-                    ends |= {s + limit for s in starts}
-                    moved = True
-                elif cls == "InputStreamSuperfluousBytesError":
-                    if moved:
-                        P = {max(p, e) for p in P for e in ends}
-                        stats["skips"] += 1
-                        moved = False
+                if wi[1] in ("SizeConstraintExceededError", "SizeConstraintSubceededError"):
+                    group.append((wi[2], int(wi[3])))
+                elif wi[1] in ("InputStreamSuperfluousBytesError", "InputStreamBytesDepletedError"):
                     if j != n - 1:
-                        return False, "superfluous warning at %d is not the last event" % j, stats
-                    surplus = bytes.fromhex(wi[2])
-                    if not any(data[p:] == surplus for p in P) or not surplus:
-                        return False, "superfluous warning lists %s, candidates %s leave %s" % (
-                            wi[2], sorted(P)[:4], [data[p:].hex()[:40] for p in sorted(P)[:3]]), stats
-                    return True, "", stats
-                elif cls == "InputStreamBytesDepletedError":
-                    if j != n - 1:
-                        return False, "depleted warning at %d is not the last event" % j, stats
-                    return True, "", stats
+                        return False, "%s warning at %d is not the last event" % (wi[1], j), stats
+                    last = wi
                 j += 1
-            if moved:
-                P = {max(p, e) for p in P for e in ends}
+            if group:
+                nxt = {}
+                for st in states:
+                    spans = []
+                    ok = True
+                    for cpath, limit in group:
+                        tail = cpath.rsplit(".", 1)[-1]
+                        if tail in MSG_SIZES and cpath.count(".") == 1:
+                            s = st.mstart
+                        else:
+                            s = st.after.get(cpath)
+                        if s is None:
+                            ok = False
+                            why = "warning %d reports region %s whose size field was never emitted" % (i, cpath)
+                            break
+                        spans.append((s, s + limit))
+                    if not ok:
+                        continue
+                    for e in admissible_ends(spans):
+                        if e >= st.pos:
+                            c = st.fork(e)
+                        elif st.base >= e:
+                            c = st.fork(st.pos)
+                        else:
+                            why = ("warning group at event %d: region with declared end %d is reported at position %d, which an earlier "
+                                   "skip reached by crossing that end (fields were consumed only up to %d)" % (i, e, st.pos, st.base))
+                            continue
+                        nxt.setdefault(c.key(), c)
+                if not nxt:
+                    return False, why or "warning group at event %d cannot be placed" % i, stats
+                states = list(nxt.values())[:MAX_STATES]
                 stats["skips"] += 1
-            stats["candidates_max"] = max(stats["candidates_max"], len(P))
+                stats["candidates_max"] = max(stats["candidates_max"], len(states))
+            if last is not None:
+                if last[1] == "InputStreamBytesDepletedError":
+                    return True, "", stats
+                surplus = bytes.fromhex(last[2])
+                if not surplus or not any(data[st.pos:] == surplus for st in states):
+                    ps = sorted(st.pos for st in states)
+                    return False, "superfluous warning lists %s, candidates %s leave %s" % (
+                        last[2], ps[:4], [data[p:].hex()[:40] for p in ps[:3]]), stats
+                return True, "", stats
             i = j
             continue
         return False, "unknown item %r" % (it,), stats
     if escaped is not None:
         return True, "", stats
-    if len(data) not in P:
-        return False, "decoding ended at candidate positions %s but the input has %d bytes and no surplus / depleted warning was given" % (
-            sorted(P)[:6], len(data)), stats
+    if not any(st.pos == len(data) for st in states):
+        ps = sorted(st.pos for st in states)
+        return False, "decoding ended at candidate positions %s but the input has %d bytes and no surplus / depleted warning was given%s" % (
+            ps[:6], len(data), ("; " + why) if why else ""), stats
     return True, "", stats
